@@ -85,7 +85,7 @@ def random_behaviours(c, rng, count, depth, max_loggers):
     """Seeded random histories over the same vocabulary, deeper and wider than the model bound."""
     res = []
     kinds = sorted(c["setter_args"].keys())
-    with_kinds = [k for k in kinds if k in ("JSONMode", "ColorMode", "UTCMode", "TimeFormat", "Level", "Attrs", "Attrs1", "SetKV", "Attrs0",
+    with_kinds = [k for k in kinds if k in ("JSONMode", "ColorMode", "UTCMode", "TimeFormat", "Level", "Attrs", "Attrs1", "SetKV", "Attrs0", "AttrsN",
                                             "Skip", "CtxKeys", "Writer", "ErrorWriter")]
     names = list(c["names"]) + [""]
     for _ in range(count):
